@@ -30,8 +30,8 @@ Families (sizes are reported in the evidence):
   forms    the two other region forms
   naming   kinds {none, strong, weak}^3 x {libL (soname), libN (no soname)} x named by
            {path, ./path, -L. -l} x regions x orders
-  twice    L1 named twice around L2 (second time by the same path or by -l), each mention in its
-           own region
+  twice    L1 named twice around L2 (second time by the same path, by ./path or by -l), each
+           mention in its own region
 Thinning per tier is stated in coverage["rule"].
 
 Oracles: (1) GNU ld on the same member; (2) the model below, written from the statement: a mention
@@ -316,8 +316,9 @@ def region_of(m, j):
 
 def member_class(m):
     """Class name used for logging disagreements between the model and GNU ld."""
-    return f"{m['fam']}:{m['out']}:" + "+".join(sorted({f"{m['kinds'][j - 1]}/{region_of(m, j)}"
-                                                        for j, _r, _n in m["occ"]}))
+    return (f"{m['fam']}:{m['out']}:{'soname' if m['soname'] else 'no-soname'}:named-by=" +
+            "+".join(sorted({n for _j, _r, n in m["occ"]})) + ":kinds=" +
+            "+".join(sorted({m['kinds'][j - 1] for j, _r, _n in m["occ"]})))
 
 
 def judge(m, r, stats):
@@ -438,7 +439,7 @@ def members(tier):
     for k1 in ("none", "strong", "weak", "data"):
         for k2 in ("none", "strong"):
             for ra, r2, rb in regs:
-                for second in ("path", "l"):
+                for second in ("path", "l", "dotpath"):
                     for out in ("exe", "shared"):
                         for soname in ((True, False) if thorough else (True,)):
                             if k1 == "data" and not soname:
@@ -446,7 +447,13 @@ def members(tier):
                             ms.append(mk("twice", out, (k1, k2, "none"),
                                          [(1, ra, "path"), (2, r2, "path"), (1, rb, second)],
                                          soname=soname))
-    return ms
+    seen, uniq = set(), []
+    for m in ms:                 # identical command lines (e.g. two region forms that coincide) once
+        k = tuple(member_argv(m))
+        if k not in seen:
+            seen.add(k)
+            uniq.append(m)
+    return uniq
 
 
 def new_stats():
@@ -519,13 +526,14 @@ def main():
                       f"{stats['nontrivial']} with a dropped library")
     chk.coverage = {
         "evaluations": stats["evaluations"],
-        "distinct_nontrivial": len(stats["ld_outcomes"]),
+        "distinct_nontrivial": stats["nontrivial"],
+        "distinct_gnu_ld_outcomes": len(stats["ld_outcomes"]),
         "rule": ("thorough: main = kinds^3 (343) x regions (8) x {all 6 orders for exe; orders 123, 321 "
                  "for -shared}; forms = kind triples containing 'none' (127) x regions (8) x "
                  "{pushpop, invpushpop} x {exe order 123, -shared order 231}; naming = "
                  "{none,strong,weak}^3 x {soname by ./path, by -l; no-soname by path, ./path, -l} x "
                  "regions (8) x orders {123, 321}; twice = L1 kind {none,strong,weak,data} x L2 kind "
-                 "{none,strong} x 3 mention regions (8) x second mention {path, -l} x {exe,-shared} x "
+                 "{none,strong} x 3 mention regions (8) x second mention {path, -l, ./path} x {exe,-shared} x "
                  "{soname, no-soname}"
                  if chk.thorough else
                  "quick: main = kind triples containing 'none' (127: all pairs of per-library kinds with "
@@ -534,13 +542,15 @@ def main():
                  "{none,strong,weak}^3 x {pushpop, invpushpop} x regions {101,011}; naming = "
                  "{none,strong,weak}^3 x 5 naming/soname combinations x regions {111,010} x order 213; "
                  "twice = as in thorough, soname libraries only") +
-                ". distinct_nontrivial = number of distinct (output kind, GNU ld DT_NEEDED sequence) "
-                "outcomes observed.",
+                ". Identical command lines (region forms that coincide) are enumerated once, so "
+                "members are pairwise distinct; distinct_nontrivial = judged members "
+                "(model and GNU ld agree) in which at least one library is dropped and at least one "
+                "DT_NEEDED entry remains; distinct_gnu_ld_outcomes = distinct (output kind, GNU ld "
+                "DT_NEEDED sequence) pairs observed.",
         "members": len(ms), "per_family": per_fam,
         "gnu_ld_links": len(ms) + lib_runs, "subprocesses": len(ms) + lib_runs,
         "wild_links": len(ms),
         "members_judged_model_and_ld_agree": stats["judged"],
-        "judged_members_with_a_dropped_library": stats["nontrivial"],
         "members_excluded_model_vs_ld": stats["model_disagrees"],
         "of_those_wild_differs_from_ld": stats["model_disagrees_and_wild_differs"],
         "model_vs_ld_disagreement_classes": stats["model_disagree_classes"],
